@@ -79,6 +79,7 @@ func (e *Engine) RunPath(h *ssa.Function, prefix []Decision, solver *smt.Solver,
 	}
 	p.loopCap = opt.LoopCap
 	cur = p
+	resetSyncState()
 	i.epoch++
 	i.logging = true
 	if opt.Trace {
